@@ -17,7 +17,7 @@ ASSUMPTIONS = ['IPv4 headers without options (IHL = 5), as the library states']
 def run(rep, tier, seed):
     rnd = rng_for(seed, 'C08')
     b = Batch(rep)
-    n = 1200 if tier == 'quick' else 15000
+    n = 3000 if tier == 'quick' else 40000
     for i in range(n):
         stack = ALL_STACKS[i % len(ALL_STACKS)]
         gen = rnd.choice(STACK_GENS[stack])
